@@ -291,6 +291,17 @@ def catalogue(big=False):
                                 call("B", binds={"x": ref("SUB", "y")})],
                                {"o": ref("B", "y")})], "TOP", {"x": 4}))
 
+    # 10b. the preflight call written after a stage call and after a call of a sub-pipeline
+    P.append(program("preflight_last", [], [stage("CHK", "int x", "", {}), S_echo("A"), S_echo("B"), S_echo("D")],
+                     [pipeline("SUB", "int x", "int y", [call("A", binds={"x": self_("x")})],
+                               {"y": ref("A", "y")}),
+                      pipeline("TOP", "int x", "int o, int p",
+                               [call("D", binds={"x": self_("x")}),
+                                call("SUB", binds={"x": self_("x")}),
+                                call("CHK", binds={"x": self_("x")}, pre=True),
+                                call("B", binds={"x": ref("SUB", "y")})],
+                               {"o": ref("B", "y"), "p": ref("D", "y")})], "TOP", {"x": 4}))
+
     # 11. mapped sub-pipeline over a run-time array, stages chained inside
     P.append(program("map_pipe", [], [S_const("G", "int[] ys", {"ys": [1, 2]}), S_echo("A"), S_echo("B")],
                      [pipeline("SUB", "int x", "int y",
